@@ -47,7 +47,8 @@ def gen_hier(r, size=2, unsupported=0.0):
     inames = ["a", "b", "l", "c", "d", "e"]
     for mi in range(nmods):
         is_top = mi == nmods - 1
-        nports = r.randint(0, 2) if is_top else r.randint(1, 3)
+        # a sub-module may have no port at all (a self-contained cell with internal nets only)
+        nports = r.randint(0, 2) if is_top else (0 if r.random() < 0.15 else r.randint(1, 3))
         ports = [[f"p{j}", r.choice([1, 1, 2, maxw]), r.choice(["in", "out", "inout", "none"])] for j in range(nports)]
         md = dict(name=f"M{mi}", ports=ports, sigs=[], insts=[])
         mods.append(md)
@@ -177,6 +178,7 @@ def features(d):
                 bus=any(w > 1 for m in mods for _, w in m["sigs"]) or any(w > 1 for m in mods for _, w, _ in m["ports"]),
                 internal_nets_below=any(mods[mi]["sigs"] for mi in sub), passthru=passthru,
                 ext_below=any(x["of"][0] == "ext" for mi in sub for x in mods[mi]["insts"]),
+                portless_below=any(not mods[mi]["ports"] for mi in sub),
                 colon_names=any(":" in n for n in names), unsupported=('"sl"' in s or '"cat"' in s))
 
 
@@ -333,7 +335,7 @@ def run(run, tier, seed, replay=None):
                len({json.dumps(d) for d in designs if sum(features(d).values()) >= 3}), features=feats,
                rule="non-trivial = at least 3 of {depth>=3, depth>=4, sharing, buses, internal nets below the top, pass-through ports, "
                     "external leaf below the top, ':' in a designer name}; distinct by design", **stats(designs, outs))
-    for f in ("depth3", "depth4", "sharing", "bus", "internal_nets_below", "passthru", "ext_below", "colon_names"):
+    for f in ("depth3", "depth4", "sharing", "bus", "internal_nets_below", "passthru", "ext_below", "colon_names", "portless_below"):
         if feats.get(f, 0) == 0:
             run.violation(f"C16:coverage:{f}", f"generator coverage target missed: no design with {f}", dict(kind="coverage"), found_input=False)
     report(run, "hier", bad, designs, outs)
